@@ -22,6 +22,7 @@ ASSUMPTIONS = ["independent reader/model is the oracle", "payloads unique per ce
 def run_case(ctx):
     src = ctx.src
     common.draw_env(ctx)
+    common.prelude(ctx)
     m = world.gen_world(src, scale=("hugebox", "manyboxes", "farcorner", "manyfields"))
     path, _ = common.materialise(ctx, m)
     limit = None
